@@ -872,7 +872,14 @@ class TorConfig:
                 v = _ListWrapper(
                     v, functools.partial(self.mark_unsaved, real_name))
             elif real_name in self.parsers:
-                v = self.parsers[real_name].parse(v)
+                if v == DEFAULT_VALUE:
+                    # the option was reset: it now has Tor's default,
+                    # which we can only give a type if Tor listed it
+                    default = self.__dict__['_defaults'].get(real_name, DEFAULT_VALUE)
+                    if default != DEFAULT_VALUE and not isinstance(default, list):
+                        v = self.parsers[real_name].parse(default)
+                else:
+                    v = self.parsers[real_name].parse(v)
             self.config[real_name] = v
 
     def bootstrap(self, arg=None):
